@@ -1,20 +1,48 @@
 (* The SHA-1 context model (std::vector buffer, transform counter) refines the abstract block-hash layer. *)
-From HV Require Import Base_Bytes Base_BytesLemmas Spec_SHA Model_BlockHash Proofs_BlockHash Model_Sha1Ctx.
+From HV Require Import Base_Bytes Base_BytesLemmas Spec_SHA Model_BlockHash Proofs_BlockHash Model_Sha1Transform
+  Proofs_Sha1Transform Model_Sha1Ctx.
 Local Open Scope N_scope.
 Ltac Zify.zify_post_hook ::= Z.to_euclidean_division_equations.
 
 Notation a_update1 := (a_update 64 sha1_compress).
 Notation a_finish1 := (a_finish 64 8 sha1_compress (fun n => be_bytes 8 (8 * N.of_nat n))).
 
+(* the chaining value is five 32-bit words (H_ok): under that invariant the transform as the code computes it
+   (Model_Sha1Transform.sha1_compress_code) is the FIPS compression function (Proofs_Sha1Transform) *)
 Definition R1 (c : ctx1) (a : actx) : Prop :=
   s_h c = a_h a /\ s_buf c = a_buf a /\ s_transforms c = N.of_nat (a_tot a / 64) mod 2 ^ 64 /\
-  (a_tot a mod 64 = 0)%nat /\ (length (a_buf a) < 64)%nat.
+  (a_tot a mod 64 = 0)%nat /\ (length (a_buf a) < 64)%nat /\ H_ok (s_h c).
 
 Lemma R1_init c : R1 (sha1_init c) (a_init IV1).
-Proof. unfold R1, sha1_init, a_init; cbn. repeat split; lia. Qed.
+Proof.
+  unfold R1, sha1_init, a_init; cbn [s_h s_buf s_transforms a_h a_buf a_tot].
+  do 5 (split; [cbn; try reflexivity; lia|]). exact IV1_ok.
+Qed.
 
-Lemma fold_transform_h bs c : s_h (fold_left sha1_transform bs c) = fold_left sha1_compress bs (s_h c).
-Proof. revert c; induction bs as [|b bs IH]; intros c; cbn [fold_left]; [reflexivity|]. now rewrite IH. Qed.
+Lemma transform_h c b : H_ok (s_h c) -> length b = 64%nat -> s_h (sha1_transform c b) = sha1_compress (s_h c) b.
+Proof. intros Hok Hb. cbn [sha1_transform s_h]. now apply sha1_compress_code_correct. Qed.
+Lemma fold_compress_ok bs : forall h, H_ok h -> H_ok (fold_left sha1_compress bs h).
+Proof.
+  induction bs as [|b bs IH]; intros h Hh; cbn [fold_left]; [exact Hh|]. apply IH. apply sha1_compress_H_ok. apply Hh.
+Qed.
+Lemma fold_transform_h bs c : H_ok (s_h c) -> Forall (fun b => length b = 64%nat) bs ->
+  s_h (fold_left sha1_transform bs c) = fold_left sha1_compress bs (s_h c).
+Proof.
+  revert c; induction bs as [|b bs IH]; intros c Hok Hbs; cbn [fold_left]; [reflexivity|].
+  inversion Hbs as [|b' bs' Hb Hbs' Eb]; subst b' bs'.
+  pose proof (transform_h c b Hok Hb) as E.
+  rewrite IH; [now rewrite E|rewrite E; apply sha1_compress_H_ok, Hok|exact Hbs'].
+Qed.
+Lemma chunks_all_len {A} B k : (0 < B)%nat -> forall l : list A, length l = (k * B)%nat ->
+  Forall (fun b => length b = B) (chunks B l).
+Proof.
+  intros HB. induction k as [|k IH]; intros l Hl.
+  - destruct l; [constructor|cbn [length] in Hl; lia].
+  - rewrite <- (firstn_skipn B l).
+    assert (Hf : length (firstn B l) = B) by (rewrite firstn_length; cbn [Nat.mul] in Hl; lia).
+    rewrite chunks_app_block by assumption. constructor; [exact Hf|].
+    apply IH. rewrite skipn_length. cbn [Nat.mul] in Hl. lia.
+Qed.
 Lemma fold_transform_buf bs c : s_buf (fold_left sha1_transform bs c) = s_buf c.
 Proof. revert c; induction bs as [|b bs IH]; intros c; cbn [fold_left]; [reflexivity|]. now rewrite IH. Qed.
 Lemma fold_transform_cnt bs c x : s_transforms c = x mod 2 ^ 64 ->
@@ -33,7 +61,7 @@ Proof. destruct l; reflexivity. Qed.
 
 Lemma R1_update c a m : R1 c a -> R1 (sha1_update c m) (a_update1 a m).
 Proof.
-  intros (Hh & Hbuf & Hcnt & Hmod & Hlt).
+  intros (Hh & Hbuf & Hcnt & Hmod & Hlt & Hok). pose proof Hok as (Hok5 & HokF).
   unfold sha1_update, Model_BlockHash.a_update.
   rewrite <- Hbuf in *.
   set (bl := length (s_buf c)) in *.
@@ -63,12 +91,17 @@ Proof.
       rewrite firstn_succ_blocks.
       rewrite chunks_app_block by (auto; lia).
       cbn [fold_left].
-      unfold R1; cbn [s_h s_buf s_transforms a_h a_buf a_tot].
-      rewrite fold_transform_h, fold_transform_buf. cbn [sha1_transform s_h s_buf]. rewrite Ebuf. cbn [app].
-      unfold Model_BlockHash.transform.
       assert (Hrest : length (firstn (nb * 64) (skipn 64 m)) = (nb * 64)%nat).
       { rewrite firstn_length, skipn_length. fold new_len. lia. }
-      repeat split.
+      assert (Hall : Forall (fun b => length b = 64%nat) (chunks 64 (firstn (nb * 64) (skipn 64 m))))
+        by (apply (chunks_all_len 64 nb); [lia|exact Hrest]).
+      pose proof (transform_h c (firstn 64 m) Hok Hf64) as Etr.
+      assert (Hok1 : H_ok (s_h (sha1_transform c (firstn 64 m)))) by (rewrite Etr; apply sha1_compress_H_ok, Hok5).
+      unfold R1; cbn [s_h s_buf s_transforms a_h a_buf a_tot].
+      rewrite (fold_transform_h _ _ Hok1 Hall), fold_transform_buf. rewrite Etr.
+      cbn [sha1_transform s_h s_buf]. rewrite Ebuf. cbn [app].
+      unfold Model_BlockHash.transform.
+      split; [|split; [|split; [|split; [|split; [|apply fold_compress_ok, sha1_compress_H_ok, Hok5]]]]].
       * rewrite (firstn_all2 (n := (1 * 64)%nat) (firstn 64 m)) by lia.
         rewrite (chunks_single 64 (firstn 64 m)) by (auto; lia). cbn [fold_left]. now rewrite Hh.
       * rewrite skipn_skipn'. replace (64 + nb * 64)%nat with ((nb + 1) * 64)%nat by lia.
@@ -99,13 +132,19 @@ Proof.
       set (nb := (new_len / 64)%nat).
       pose proof (Nat.div_mod new_len 64 ltac:(lia)) as Hdm. fold nb in Hdm.
       pose proof (Nat.mod_upper_bound new_len 64 ltac:(lia)) as Hub.
-      unfold R1; cbn [s_h s_buf s_transforms a_h a_buf a_tot].
-      rewrite fold_transform_h, fold_transform_buf. cbn [sha1_transform s_h s_buf app].
-      unfold Model_BlockHash.transform.
       assert (Hblk : length (s_buf c ++ firstn rem_len m) = 64%nat) by (rewrite app_length, Hfl; fold bl; lia).
       assert (Hrest : length (firstn (nb * 64) (skipn rem_len m)) = (nb * 64)%nat).
       { rewrite firstn_length, skipn_length. fold new_len. lia. }
-      repeat split.
+      assert (Hall : Forall (fun b => length b = 64%nat) (chunks 64 (firstn (nb * 64) (skipn rem_len m))))
+        by (apply (chunks_all_len 64 nb); [lia|exact Hrest]).
+      pose proof (transform_h c (s_buf c ++ firstn rem_len m) Hok Hblk) as Etr.
+      assert (Hok1 : H_ok (s_h (sha1_transform c (s_buf c ++ firstn rem_len m))))
+        by (rewrite Etr; apply sha1_compress_H_ok, Hok5).
+      unfold R1; cbn [s_h s_buf s_transforms a_h a_buf a_tot].
+      rewrite fold_transform_h by (cbn [s_h]; assumption). rewrite fold_transform_buf. cbn [s_h]. rewrite Etr.
+      cbn [sha1_transform s_h s_buf app].
+      unfold Model_BlockHash.transform.
+      split; [|split; [|split; [|split; [|split; [|apply fold_compress_ok, sha1_compress_H_ok, Hok5]]]]].
       * rewrite (firstn_all2 (n := (1 * 64)%nat) (s_buf c ++ firstn rem_len m)) by lia.
         rewrite (chunks_single 64 (s_buf c ++ firstn rem_len m)) by (auto; lia). cbn [fold_left]. now rewrite Hh.
       * symmetry. apply firstn_all2. rewrite !skipn_length. fold new_len. lia.
@@ -125,9 +164,9 @@ Proof. induction cs as [|m cs IH]; intros c a H; cbn [fold_left]; [exact H|]. ap
 Lemma R1_finish c a : R1 c a -> N.of_nat (a_tot a + length (a_buf a)) < 2 ^ 61 ->
   snd (sha1_finish c) = words_bytes 4 (a_finish1 55%nat a).
 Proof.
-  intros (Hh & Hbuf & Hcnt & Hmod & Hlt) Hbound.
+  intros (Hh & Hbuf & Hcnt & Hmod & Hlt & Hok) Hbound.
   unfold sha1_finish, Model_BlockHash.a_finish. cbn [snd]. f_equal.
-  rewrite fold_transform_h. cbn [s_h]. rewrite Hh, Hbuf.
+  rewrite Hbuf.
   set (ml := length (a_buf a)) in *.
   rewrite (Nat.mod_small ml 64) by lia.
   set (nb := if (55 <? ml)%nat then 2%nat else 1%nat).
@@ -154,7 +193,11 @@ Proof.
   { unfold final. rewrite !app_length, repeat_length, be_bytes_length. cbn [length]. fold ml.
     unfold nb. destruct (Nat.ltb_spec 55 ml); lia. }
   rewrite firstn_all2 by lia.
-  f_equal. f_equal. unfold final. now rewrite <- !app_assoc.
+  rewrite <- !app_assoc. fold final.
+  rewrite fold_transform_h.
+  - cbn [s_h]. now rewrite Hh.
+  - cbn [s_h]. exact Hok.
+  - apply (chunks_all_len 64 nb); [lia|exact Hfl].
 Qed.
 
 Theorem sha1_chunked_correct c cs : N.of_nat (length (concat cs)) < 2 ^ 61 ->
